@@ -1,6 +1,7 @@
 package harness
 
 import (
+	"bytes"
 	"context"
 	"errors"
 	"fmt"
@@ -10,6 +11,7 @@ import (
 
 	netty "github.com/go-netty/go-netty"
 	"github.com/go-netty/go-netty/verifsim/simnet"
+	"github.com/go-netty/go-netty/verifsim/simrt"
 )
 
 var fiveEntries = []int{EWrite1, EWritev, ECtxWrite1, ECtxWritev, EWriterWrite}
@@ -139,8 +141,133 @@ func runC06(e *Env) {
 
 // C10: callers poison their buffers right after the call; scribblers share the pool.
 //
+type sharedRec struct {
+	Want     []byte // what the shared vector held when the call was made
+	N        int64
+	Err      error
+	Done     bool
+	Inv, Ret int64
+}
+
+//go:norace
+func (r *sharedRec) begin(e *Env, vec [][]byte) {
+	for _, b := range vec {
+		for _, c := range b {
+			r.Want = append(r.Want, c)
+		}
+	}
+	r.Inv = e.Sim.NextEv()
+}
+
+//go:norace
+func (r *sharedRec) finish(e *Env, n int64, err error) { r.N, r.Err, r.Done, r.Ret = n, err, true, e.Sim.NextEv() }
+
+// runC10Shared: several goroutines write the SAME read-only vector (a pre-encoded frame broadcast or re-sent) to one
+// channel. Nobody but the library touches the vector; what each call transmits must be what the vector held when
+// that call was made.
+//
+//go:norace
+func runC10Shared(e *Env) {
+	cc := e.drawChan(true, queueSizes)
+	if cc.Async {
+		cc.Until = true
+	}
+	switch e.P(4) {
+	case 1:
+		cc.Wrap = true
+		cc.RBuf = []int{0, 16}[e.P(2)]
+	case 2:
+		cc.WBuf = []int{16, 64, 4096}[e.P(3)]
+	case 3:
+		cc.WBuf, cc.RBuf = []int{16, 64, 4096}[e.P(3)], 16
+	}
+	size := e.PSize([]int{12, 2, 300, 1024, 2049, 5000}, 6000)
+	payload := fillPayload(0, size)
+	vec := split(append([]byte(nil), payload...), 1+e.P(3))
+	writers := 2 + e.P(2)
+	viaCtx := e.P(3) == 2
+	recs := make([]*sharedRec, writers)
+	for i := range recs {
+		recs[i] = &sharedRec{}
+	}
+	e.Describe("channel=%s; %d goroutines write the same %d-element vector (%d bytes) with %s", cc, writers, len(vec), size, map[bool]string{false: "Writev", true: "CtxWritev"}[viaCtx])
+	rig := e.NewRig(cc, false)
+	e.Go("main", func() {
+		rig.Serve()
+		for w := 0; w < writers; w++ {
+			r := recs[w]
+			e.Go(fmt.Sprintf("writer%d", w), func() {
+				e.Step()
+				r.begin(e, vec)
+				var n int64
+				var err error
+				if viaCtx {
+					n, err = rig.Ch.CtxWritev(context.Background(), vec)
+				} else {
+					n, err = rig.Ch.Writev(vec)
+				}
+				r.finish(e, n, err)
+			})
+		}
+	})
+	end := e.RunToEnd()
+	if end != simrt.EndQuiescent && end != simrt.EndAllDone {
+		return
+	}
+	var wants [][]byte
+	total, overlapped := 0, false
+	for i, r := range recs {
+		if !r.Done {
+			e.Violate("snapshot", "shared-vector,call-stuck", "call %d on the shared vector did not return", i)
+			return
+		}
+		if r.Err != nil {
+			continue
+		}
+		if r.N != int64(len(r.Want)) {
+			e.Violate("snapshot", "shared-vector,count", "call %d was made when the shared vector held %d bytes and reported %d bytes written without an error", i, len(r.Want), r.N)
+		}
+		wants = append(wants, r.Want)
+		total += len(r.Want)
+		for j, o := range recs {
+			if j != i && o.Done && o.Inv < r.Ret && r.Inv < o.Ret {
+				overlapped = true
+			}
+		}
+	}
+	wire := rig.Conn.Wire
+	ok := len(wire) == total
+	pos := 0
+	used := make([]bool, len(wants))
+	for ok && pos < len(wire) {
+		found := false
+		for k, w := range wants {
+			if !used[k] && len(w) > 0 && pos+len(w) <= len(wire) && bytes.Equal(wire[pos:pos+len(w)], w) {
+				used[k], found = true, true
+				pos += len(w)
+				break
+			}
+		}
+		if !found {
+			ok = false
+		}
+	}
+	if !ok {
+		e.Violate("snapshot", "shared-vector,sent-bytes-differ", "%d successful calls were made while the shared vector held %d bytes in total, but %d bytes were transmitted (or different ones): a call did not send what its buffer held when it was made", len(wants), total, len(wire))
+	}
+	if overlapped {
+		e.Count("shared_vector_calls_overlapped", 1)
+	}
+	e.Count("shared_vector_runs", 1)
+	rig.Teardown()
+}
+
 //go:norace
 func runC10(e *Env) {
+	if e.P(8) == 7 {
+		runC10Shared(e)
+		return
+	}
 	cfg := WCfg{Entries: fiveEntries, CtxModes: []int{CtxBackground}, Poison: true, BigSizes: true}
 	cfg.Chan = e.drawBuffered(e.drawChan(true, queueSizes))
 	cfg.Writers = 1 + e.P(3)
